@@ -492,6 +492,10 @@ class Expander:
                 return const_like(x.left) and const_like(x.right)
             if isinstance(x, ast.Call) and isinstance(x.func, ast.Name) and x.func.id in ('datetime', 'timedelta'):
                 return all(const_like(a) for a in x.args) and all(const_like(k.value) for k in x.keywords)
+            if isinstance(x, ast.Tuple):
+                return all(const_like(e) for e in x.elts)
+            if isinstance(x, ast.Name) and x.id in ('int', 'float', 'str', 'bool', 'bytes', 'complex', 'list', 'tuple', 'dict', 'set'):
+                return True
             return False
         return copy.deepcopy(v) if const_like(v) else None
 
@@ -599,7 +603,17 @@ class Expander:
         if isinstance(fn, ast.Name):
             tg = self.typer.resolve_name_call(fn.id, self.func)
             tg = [t for t in tg if t.kind == 'function']
-            return tg[0] if len(tg) == 1 else None
+            if len(tg) == 1:
+                return tg[0]
+            # a def nested in this function (or in an enclosing one): free variables are looked up at call time, i.e. in
+            # the very scope the expansion is substituted into
+            p = self.func
+            while p is not None and not tg:
+                nested = self.prog.funcs.get(p.qual + '.' + fn.id)
+                if nested is not None and nested.kind == 'nested' and not self.flow.defs_of(fn.id)[1:]:
+                    return nested
+                p = p.parent
+            return None
         if isinstance(fn, ast.Attribute):
             rt = self.typer.expr_type(fn.value, self.func)
             if rt and rt.startswith('type:'):
